@@ -132,7 +132,80 @@ func (i *interpreter) indexRead(elems []value, idx value, it types.Type) value {
 	if r, ok := iteChain(cx, elems, t); ok {
 		return r
 	}
+	if n > 1024 {
+		// large table: narrow the feasible index range with the solver, then
+		// build the (run-compressed) chain over that window only
+		if lo, hi, ok := ps.rangeOf(t, uint64(n-1)); ok && hi-lo < 1<<16 {
+			if r, ok := iteChainWindow(cx, elems, t, int(lo), int(hi)); ok {
+				return r
+			}
+		}
+	}
 	return elems[ps.concretize(t, "index")]
+}
+
+// rangeOf finds the smallest and largest feasible values of t (unsigned, known
+// to be <= max) by binary search over solver queries.
+func (ps *pathState) rangeOf(t *sym.Term, max uint64) (lo, hi uint64, ok bool) {
+	cx := ps.cx
+	// largest feasible value
+	l, h := uint64(0), max
+	for l < h {
+		mid := l + (h-l+1)/2
+		switch ps.check(cx.Cmp(sym.OpUle, cx.Const(t.W, mid), t)) {
+		case solver.Sat:
+			l = mid
+		case solver.Unsat:
+			h = mid - 1
+		default:
+			return 0, 0, false
+		}
+	}
+	hi = l
+	l, h = 0, hi
+	for l < h {
+		mid := l + (h-l)/2
+		switch ps.check(cx.Cmp(sym.OpUle, t, cx.Const(t.W, mid))) {
+		case solver.Sat:
+			h = mid
+		case solver.Unsat:
+			l = mid + 1
+		default:
+			return 0, 0, false
+		}
+	}
+	return l, hi, true
+}
+
+// iteChainWindow is iteChain restricted to elems[lo..hi] (idx is known to lie
+// in that window on this path).
+func iteChainWindow(cx *sym.Ctx, elems []value, idx *sym.Term, lo, hi int) (value, bool) {
+	var r *sym.Term
+	var next *sym.Term
+	runs := 0
+	for k := hi; k >= lo; k-- {
+		t, ok := scalarTerm(cx, elems[k])
+		if !ok {
+			return nil, false
+		}
+		if r == nil {
+			r, next = t, t
+			continue
+		}
+		if t.W != next.W {
+			return nil, false
+		}
+		if t == next {
+			continue
+		}
+		r = cx.Ite(cx.Cmp(sym.OpUle, idx, cx.Const(idx.W, uint64(k))), t, r)
+		next = t
+		runs++
+		if runs > 4096 {
+			return nil, false
+		}
+	}
+	return r, true
 }
 
 // iteChain builds ite(idx==0,e0, ite(idx==1,e1,...)) when all elements are
